@@ -180,15 +180,17 @@ EXPORT errno_t _wcsnatcmp_s_chk(const wchar_t *dest, rsize_t dmax,
         rsize_t l1, l2;
         errno_t rc;
 
-        d1 = (wchar_t *)malloc(2 * destsz);
-        rc = wcsfc_s(d1, dmax * 2, (wchar_t * restrict) dest, &l1);
+        /* a character folds to at most three, and wcsfc_s wants room for one
+           whole expansion (4 + terminator) at every character */
+        d1 = (wchar_t *)malloc((3 * dmax + 5) * sizeof(wchar_t));
+        rc = wcsfc_s(d1, 3 * dmax + 5, (wchar_t * restrict) dest, &l1);
         if (rc != EOK) {
             free(d1);
             return rc;
         }
 
-        d2 = (wchar_t *)malloc(2 * srcsz);
-        rc = wcsfc_s(d2, smax * 2, (wchar_t * restrict) src, &l2);
+        d2 = (wchar_t *)malloc((3 * smax + 5) * sizeof(wchar_t));
+        rc = wcsfc_s(d2, 3 * smax + 5, (wchar_t * restrict) src, &l2);
         if (rc != EOK) {
             free(d1);
             free(d2);
